@@ -2,8 +2,9 @@
   Driver.Main — one request per line on stdin, one answer per line on stdout.
   Compiled core-only (`lake build driver`).  See harness/PROTOCOL.md.
 -/
-import Jmes.Parser
-import Jmes.Interp
+import Jmes.Model
+import Jmes.Cli
+import Spec.Tables
 import Driver.Codec
 open Jmes Jmes.Codec
 
@@ -16,19 +17,63 @@ def showRes {α} (f : α → String) : Res α → String
   | .err e => showErr e
   | .panic site => "panic " ++ site
 
-def search (expr : Bytes) (doc : Val F64v) : Res (Val F64v) := do
-  let ast ← (Parser.parse expr : Res (Node F64v))
-  Interp.eval Generated.functionTable ast doc
+def specCfg : Api.Config := { lex := Spec.lexTables, tbl := Spec.table, fns := Spec.functionTable }
 
-def handle (line : String) : String :=
+def compile (cfg : Api.Config) (expr : Bytes) : Res (Node F64v) := Api.compile cfg expr
+def search (cfg : Api.Config) (expr : Bytes) (doc : Val F64v) : Res (Val F64v) := Api.search cfg expr doc
+
+def showVal : Res (Val F64v) → String := showRes canon
+
+/-- One API operation of an `A` request. -/
+def apiOp (cfg : Api.Config) (st : Api.State F64v) (op : String) : Api.State F64v × String :=
+  match op.splitOn "." with
+  | [h, x] =>
+    if h.startsWith "d" then
+      match (h.drop 1).toNat?, readCanon x with
+      | some id, some v => ((Api.step cfg st (.doc id v)).1, "ok")
+      | _, _ => (st, "bad-op")
+    else if h.startsWith "c" then
+      match (h.drop 1).toNat?, unhex x with
+      | some id, some e =>
+        let (st', o) := Api.step cfg st (.compile id e)
+        (st', match o with | .compiled r => showRes (fun _ => "") r |>.trimAscii.toString | _ => "bad-op")
+      | _, _ => (st, "bad-op")
+    else if h.startsWith "s" then
+      match (h.drop 1).toNat?, x.toNat? with
+      | some id, some d =>
+        let (st', o) := Api.step cfg st (.searchC id d)
+        (st', match o with | .value r => showVal r | .missing => "nohandle" | _ => "bad-op")
+      | _, _ => (st, "bad-op")
+    else if h.startsWith "p" then
+      match (h.drop 1).toNat?, unhex x with
+      | some id, some e =>
+        let (st', o) := Api.step cfg st (.parse id e)
+        (st', match o with | .ast r => showRes dump r | _ => "bad-op")
+      | _, _ => (st, "bad-op")
+    else (st, "bad-op")
+  | ["o", e, d] =>
+    match unhex e, d.toNat? with
+    | some e, some d =>
+      let (st', o) := Api.step cfg st (.search e d)
+      (st', match o with | .value r => showVal r | .missing => "bad-op" | _ => "bad-op")
+    | _, _ => (st, "bad-op")
+  | _ => (st, "bad-op")
+
+def apiSeq (cfg : Api.Config) (seq : String) : String :=
+  let (_, outs) := (seq.splitOn ";").foldl (fun (acc : Api.State F64v × List String) op =>
+    let (st, o) := apiOp cfg acc.1 op
+    (st, o :: acc.2)) ({}, [])
+  ";".intercalate outs.reverse
+
+def handle (cfg : Api.Config) (line : String) : String :=
   match (line.splitOn " ").filter (· ≠ "") with
   | ["SU", e, d] | ["S", e, d] =>
     (match unhex e, readCanon d with
-     | some expr, some doc => showRes canon (search expr doc)
+     | some expr, some doc => showVal (search cfg expr doc)
      | _, _ => "bad-request")
   | ["C", e] =>
     (match unhex e with
-     | some expr => showRes dump (Parser.parse expr : Res (Node F64v))
+     | some expr => showRes dump (compile cfg expr)
      | none => "bad-request")
   | ["J", t] =>
     (match unhex t with
@@ -42,16 +87,63 @@ def handle (line : String) : String :=
     (match readCanon v with
      | some v => "ok " ++ hexField (Json.encodeIndent 0 v)
      | none => "bad-request")
+  | ["A", seq] => apiSeq cfg seq
+  | ["P", a, bb, d] =>
+    -- pipe law: Search(A | B, d) against Search(B, Search(A, d))
+    (match unhex a, unhex bb, readCanon d with
+     | some ea, some eb, some doc =>
+       let whole := showVal (search cfg (ea ++ b " | " ++ eb) doc)
+       let split := match search cfg ea doc with
+         | .ok v => showVal (search cfg eb v)
+         | r => showVal r
+       whole ++ " // " ++ split
+     | _, _, _ => "bad-request")
+  | ["R", pre, e, suf, d] =>
+    -- substitution: C[e] against C[`literal of e's value`]
+    (match unhex pre, unhex e, unhex suf, readCanon d with
+     | some pre, some e, some suf, some doc =>
+       (match search cfg e doc with
+        | .ok v =>
+          let lit := 0x60 :: (Json.encode v).flatMap (fun c => if c = 0x60 then [0x5C, 0x60] else [c]) ++ [0x60]
+          showVal (search cfg (pre ++ e ++ suf) doc) ++ " // " ++ showVal (search cfg (pre ++ lit ++ suf) doc)
+        | r => "hole " ++ showVal r)
+     | _, _, _, _ => "bad-request")
+  | ["W", e1, e2] =>
+    (match unhex e1, unhex e2 with
+     | some a, some c => showRes dump (compile cfg a) ++ " // " ++ showRes dump (compile cfg c)
+     | _, _ => "bad-request")
+  | ["Y", n, a, bb, c] =>
+    (match n.toNat? with
+     | some n =>
+       let part (x : String) : Bytes := if x = "_" then [] else x.toUTF8.toList
+       let expr : Bytes := [0x5B] ++ part a ++ [0x3A] ++ part bb ++ (if c = "_" then [] else 0x3A :: part c) ++ [0x5D]
+       let doc : Val F64v := .arr ((List.range n).map (fun i => .num (NumOps.ofNat i)))
+       showVal (search cfg expr doc)
+     | none => "bad-request")
+  | ["X", mode, e, inp] =>
+    (match unhex e, unhex inp with
+     | some e, some inp =>
+       let r : Cli.Result :=
+         if mode = "s" then Cli.run (N := F64v) cfg [e] (.stdin inp)
+         else if mode = "f" then Cli.run (N := F64v) cfg [e] (.file (some inp))
+         else if mode = "m" then Cli.run (N := F64v) cfg [e] (.file none)
+         else if mode = "a0" then Cli.run (N := F64v) cfg [] (.stdin inp)
+         else Cli.run (N := F64v) cfg [e, e] (.stdin inp)
+       "exit " ++ toString r.exit ++ " " ++ hexField r.stdout
+     | _, _ => "bad-request")
   | _ => "bad-request"
 
-partial def loop (h : IO.FS.Stream) (out : IO.FS.Stream) : IO Unit := do
+partial def loop (cfg : Api.Config) (h : IO.FS.Stream) (out : IO.FS.Stream) : IO Unit := do
   let line ← h.getLine
   if line.isEmpty then return ()
-  out.putStrLn (handle (line.trimAscii.toString))
+  out.putStrLn (handle cfg (line.trimAscii.toString))
   out.flush
-  loop h out
+  loop cfg h out
 
-def main : IO Unit := do
+/-- `driver` runs the model with the regenerated facts; `driver --spec` with
+    the specification's own tables. -/
+def main (args : List String) : IO Unit := do
   let out ← IO.getStdout
-  loop (← IO.getStdin) out
+  let cfg := if args.contains "--spec" then specCfg else Model.cfg
+  loop cfg (← IO.getStdin) out
   out.flush
